@@ -2,4 +2,4 @@
 # offline setup: build the Lean library and the model driver (nothing is fetched)
 set -e
 cd "$(dirname "$0")/lean"
-lake build
+lake build MythVerif drv_tls
